@@ -81,6 +81,13 @@ CHECKS = {
 }
 
 NA = {
+ "C05": "needs xml_xpath::query to run on a live document: the evaluator walks the Rc<RefCell<..>> item graph behind a HashMap id table, which neither engine can encode (Kani could not build a two-element document in 25 min; the S-kernel has no heap-graph model). The scalar half of the evaluator is decided under C09, the expression grammar under C08.",
+ "C07": "node-set order / de-duplication / union algebra are facts about evaluator results on documents (sorting and dedup by XmlNode::order over the item graph): same obstacle as C05. The order-vector kernel they rely on is decided under C14.",
+ "C10": "namespace scoping (in_scope_namespace, find_nameapce_uri, as_expanded_name) recurses over parent links of the item graph; only the grammar's recognition of xmlns / xmlns:p attribute names is within reach and is decided inside C01/C02.",
+ "C12": "the state is the heap graph itself (child vectors, parent_id, id_map of Rc/Weak items); no symbolic pre-state of it can be built in either engine, and bounded histories from a concrete state would be enumeration, not a solver verdict.",
+ "C13": "same state as C12 for every tree mutator. The character-data mutators' semantics are decided under C16, their validation under C15; the panicking factories are a known finding of C15.",
+ "C17": "whole-program runs of the xe/xq binaries over process I/O, composing parser, evaluator, DOM mutation and printer: outside bounded symbolic execution of the code by either engine.",
+ "C19": "a relation between whole evaluator runs that share a Context and cached order keys (push/pop pairing across `?`, Rc-shared DOM); needs the evaluator over a live document.",
 }
 DEFAULT_NA = "check not built yet (construction in progress)"
 
